@@ -233,6 +233,8 @@ class SimWorld(object):
             # kernel; unknown pids are recorded, never executed
             return k.kill(pid, sig)
         self._patch(_real_os, 'kill', global_kill)
+
+        _ACTIVE_KERNEL[0] = k
         self._patch(circus.process, 'Popen', make_popen(k))
         for mod in (circus.watcher, circus.arbiter, circus.process,
                     circus.commands.base, circus.util, circus.controller):
@@ -504,6 +506,8 @@ class SimWorld(object):
 
     def close(self):
         try:
+            if _ACTIVE_KERNEL[0] is self.kernel:
+                _ACTIVE_KERNEL[0] = None
             for obj, name, old in reversed(self._patched):
                 if old is _MISSING:
                     try:
@@ -670,6 +674,33 @@ class SimWorld(object):
 
 
 _MISSING = object()
+_ACTIVE_KERNEL = [None]
+
+
+def _install_psutil_routing():
+    """psutil.Process(<simulated pid>) is a view on the simulated table of
+    the active world (the real constructor would look the pid up in /proc).
+    Installed once per process: removing a __new__ from a class again leaves
+    CPython's object.__new__ argument check in a confused state."""
+    import psutil as _psutil
+    from vfw.kernel import FakeProcess
+    if '__new__' in _psutil.Process.__dict__:
+        return
+
+    def routed_new(cls, *a, **kw):
+        k = _ACTIVE_KERNEL[0]
+        pid = a[0] if a else kw.get('pid')
+        if k is not None and cls is _psutil.Process and \
+                isinstance(pid, int) and not isinstance(pid, bool) and \
+                pid >= DAEMON_PID:
+            if k.state(pid) == 'gone':
+                raise _psutil.NoSuchProcess(pid)
+            return FakeProcess(k, pid)
+        return object.__new__(cls)
+    _psutil.Process.__new__ = staticmethod(routed_new)
+
+
+_install_psutil_routing()
 
 
 def _innermost_circus_frame(stack):
